@@ -81,7 +81,12 @@ def make(rng, sid, hist):
     line = d1.count(b"\n") + 1
     pos = "first" if not items else ("after_" + items[-1]["kind"])
     s = Scenario(sid, {"kind": kind, "line": line, "content": content, "delim": delim, "comment": comment, "pos": pos, "bad": bad})
-    s.file(PATH, content)
+    # a sixth of the single files live behind a long path (every component short, the whole longer than NAME_MAX, far below PATH_MAX)
+    path = PATH
+    if not python and rng.random() < 0.17:
+        path = b"/srv/" + b"/".join([b"build-root-%02d" % i + b"x" * rng.randint(20, 40) for i in range(rng.randint(6, 9))]) + b"/doc.conf"
+    s.meta["path"] = path
+    s.file(path, content)
     if rng.random() < 0.3:
         # an earlier read in the same process with other delimiter and comment characters (a login.defs style file, or one
         # that fails itself) must not change what this read reports
@@ -95,7 +100,7 @@ def make(rng, sid, hist):
         s.add("NEW", 0, "opt", h(b"PYTHON_STYLE=1"))
         s.add("RC", 0, h(b"app"), h(b"/usr/etc"), h(b"doc"), h(b"conf"), h(delim), h(comment))
     else:
-        s.add("RF", 0, h(PATH), h(delim), h(comment))
+        s.add("RF", 0, h(path), h(delim), h(comment))
     s.add("SLOT", 0)
     s.add("ERRLOC")
     return s
@@ -230,7 +235,7 @@ def oracle(s, lines):
     if "kind" not in m:
         return None
     code = KINDS[m["kind"]]
-    want = ["rf E%d null" % code, "slot null", "errloc %s %d" % (h(PATH), m["line"])]
+    want = ["rf E%d null" % code, "slot null", "errloc %s %d" % (h(m.get("path", PATH)), m["line"])]
     k = m.get("prior", 0)
     if m.get("python"):
         got = lines[k:k + 4]
